@@ -62,6 +62,21 @@ macro_rules! create_error {
   };
 }
 
+/// Propagate the error of a call made while temporary roots are held,
+/// releasing the roots first
+#[macro_export]
+macro_rules! try_rooted {
+  ( $hooks:ident, $roots:expr, $call:expr ) => {
+    match $call {
+      Ok(value) => value,
+      Err(err) => {
+        $hooks.pop_roots($roots);
+        return Err(err);
+      },
+    }
+  };
+}
+
 #[macro_export]
 macro_rules! native_with_error {
   ( $st:ident, $meta:ident ) => {
